@@ -1156,7 +1156,7 @@ func concCmd(args []string) error {
 		if v, err := strconv.Atoi(os.Getenv("VERIF_CONC_ROUNDS")); err == nil && v > 0 {
 			rounds = v
 		}
-		st, screened, err := runPairs(r, rounds, outdir, skip, focus, tier)
+		st, screened, err := runPairs(r, rounds, outdir, skip, focus, tier, nil)
 		if err != nil {
 			return err
 		}
@@ -1166,6 +1166,24 @@ func concCmd(args []string) error {
 		fmt.Fprintf(sf, "PHASE pairs %s\n", st)
 		if st != "OK" {
 			hang = true
+		}
+	}
+	if !hang && len(focus) > 0 && (len(want) == 0 || want["hotmulti"]) {
+		hot := []string{}
+		for _, n := range []string{"rename", "lmove", "smove", "sunionstore"} {
+			if focus[n] {
+				hot = append(hot, n)
+			}
+		}
+		if len(hot) > 0 {
+			st, _, err := runPairs(r, 900, outdir, skip, focus, tier, hot)
+			if err != nil {
+				return err
+			}
+			fmt.Fprintf(sf, "PHASE hotmulti %s\n", st)
+			if st != "OK" {
+				hang = true
+			}
 		}
 	}
 	if !hang && (len(want) == 0 || want["bigval"]) && !skip["setrange"] && !skip["get"] {
